@@ -360,6 +360,16 @@ Definition o_closed (o : opobs) : bool := snd (fst (fst o)).
 Definition o_left (o : opobs) : list (list omsg) := snd (fst o).
 Definition o_stall (o : opobs) : N * N := snd o.
 
+(* compact notation for long observed batches: runs of consecutive tags of one producer, all of
+   event type k and with the same key *)
+Fixpoint omsg_run (k : N) (key : option str) (p t0 : N) (n : nat) : list omsg :=
+  match n with
+  | O => []
+  | S m => (p, t0, k, key) :: omsg_run k key p (N.succ t0) m
+  end.
+Definition runs_batch (k : N) (key : option str) (runs : list (N * N * N)) : list omsg :=
+  flat_map (fun r => match r with (p, t0, n) => omsg_run k key p t0 (N.to_nat n) end) runs.
+
 Definition is_returned (s : st) : bool := match cp s with CReturned => true | _ => false end.
 
 (* result code of an operation: 0 returned; 1 nothing to do; 2 panicked (send on closed
@@ -401,6 +411,23 @@ Fixpoint coarse_obs (ops : list op) (s : st) : list opobs :=
 
 Definition run_model (ops : list op) : list opobs := coarse_obs ops init_settled.
 
+(* state after a forced schedule *)
+Definition coarse_end (ops : list op) (s : st) : st :=
+  fold_left (fun s o => run (coarse_labels o s) s) ops s.
+
+(* ---------- a full channel (capacity 10000) without running 10000 quadratic steps ---------- *)
+(* For the long OFull schedules the prediction is computed in closed form; C19_stalled_returns_
+   closed_form and C19_full_accepts_all_in_order (props/C19.v) prove that this is what the
+   schedule [full_labels] does in the model, from every reachable state that meets [full_pre_ok]. *)
+Definition msg_of_pub (pe : N * event) : msg :=
+  mkMsg (fst pe) (snd pe) (match key_of (snd pe) with Some k => k | None => None end).
+(* the batching loop is idle at its range, the channel is empty and open *)
+Definition full_pre_ok (s : st) : bool :=
+  match chan s, bp s with [], BIdle => negb (closed s) | _, _ => false end.
+(* WriteEvent calls that return while the batching loop is stalled: the capacity of the channel
+   plus the one message the loop holds; all of them if they are fewer *)
+Definition full_returns (l : list (N * event)) : N := N.min (Nlen l) (ew_chan_cap + 1).
+
 (* ---------- comparison of observations ---------- *)
 Definition omsg_eqb (a b : omsg) : bool :=
   match a, b with
@@ -417,6 +444,12 @@ Definition opobs_eqb (a b : opobs) : bool :=
 (* ---------- cases written by the harness ---------- *)
 Inductive c19_case :=
 | CSched (ops : list op) (observed : list opobs)   (* a forced schedule and what the code did *)
+| CFull (pre : list op) (l : list (N * event)) (o : opobs)
+   (* the forced schedule  pre ++ [OFull l; OClose; ORelease; ...; ORelease]  (as many releases as
+      it takes for Close to return; pre is short and leaves the channel empty), with the
+      observations of all its operations merged into one: worst result code, every batch at
+      entry of the write function, Close returned, every batch at return, and the stall
+      observation of the OFull operation *)
 | CRace (mode : N) (trials : N) (hangs : N) (lost : N).
    (* unforced races of Close against the writer: mode 1 = right after construction, 2 = against
       the return of the write function; hangs = trials in which Close never returned with the
@@ -426,6 +459,16 @@ Inductive c19_case :=
 Definition corr19 (c : c19_case) : bool :=
   match c with
   | CSched ops obs => list_eqb opobs_eqb (run_model ops) obs
+  | CFull pre l o =>
+    let s0 := coarse_end pre init_settled in
+    match o with
+    | (r, bs, c, _, (n, k)) =>
+      full_pre_ok s0 && forallb (fun pe => supported (snd pe)) l &&
+      (r =? 0) && c && (n =? full_returns l) && (k =? ew_chan_cap) &&
+      (* Close returned: everything accepted, in the order of acceptance (C19_flush,
+         C19_full_accepts_all_in_order) *)
+      list_eqb omsg_eqb (concat bs) (map omsg_of (accepted s0 ++ map msg_of_pub l))
+    end
   | CRace _ _ hangs _ =>
     (* with the released flag the model has no hanging schedule (C19_close_terminates); without
        it both outcomes are behaviours of the model *)
@@ -590,6 +633,7 @@ Definition mon_sched (ops : list op) (obs : list opobs) : N :=
 Definition mon19 (c : c19_case) : N :=
   match c with
   | CSched ops obs => mon_sched ops obs
+  | CFull pre l o => mon_sched (pre ++ [OFull l; OClose]) [o]
   | CRace _ _ hangs lost => if 0 <? lost then 4 else if 0 <? hangs then 10 else 0
   end.
 
@@ -604,6 +648,8 @@ Fixpoint state_at_close (ops : list op) (s : st) : option st :=
 Definition tag19 (c : c19_case) : N :=
   match c with
   | CRace mode _ _ _ => 20 + mode
+  | CFull _ l o => if fst (o_stall o) <? Nlen l then 41 else 40
+      (* 41: the channel was full and producers waited for the batching loop; 40: the burst fitted *)
   | CSched ops obs =>
     let full := (if existsb (fun b => Nlen b =? 100) (all_batches obs) then 10 else 0) +
                 (* the channel was full and producers waited for the batching loop *)
